@@ -102,7 +102,15 @@ def generate(seed, tier):
         kind = rng.choice(['fs_open_fail', 'fs_write_fail', 'fs_short_write', 'fs_close_fail'])
         target = rng.choice(['_out.txt', '_out.txt', '_log.txt', '_eqn.txt'])
         faults.append({'kind': kind, 'path_contains': target, 'nth': rng.choice([1, 1, 2, 5])})
-    return {'kind': 'READ', 'source': 'mainlog', 'fmt': '%.5g', 'maxtime': rng.randint(1, 6), 'faults': faults,
+    mt = rng.randint(1, 6)
+    reads = []
+    if rng.random() < 0.5:
+        # between the run and a second rendering the results are read through the Model's convenience accessor
+        for _ in range(rng.randint(1, 4)):
+            reads.append({'series': rng.choice(['k', 't', 'HH__F', 'GOOD__SUP_GOOD', 'GOV__FISCAL_BALANCE']),
+                          'cutoff': rng.choice([None, 0, 1, mt, mt, mt + 2]), 'suppress': rng.random() < 0.6,
+                          'via_attr': rng.random() < 0.5})
+    return {'kind': 'READ', 'source': 'mainlog', 'fmt': '%.5g', 'maxtime': mt, 'faults': faults, 'reads': reads,
             'builder': rng.choice(['SIM', 'SIMEX1']), 'base': rng.choice(['run', 'out/model_x', 'a.b'])}
 
 
@@ -344,6 +352,24 @@ def execute(case):
                 viol.append(core.violation(ID, 'timeseries-log-not-a-prefix', 'timeseries-log-not-a-prefix', acked=acked[0:200], want=want[0:200]))
             elif disk is not None and disk != '' and not want.startswith(disk):
                 viol.append(core.violation(ID, 'timeseries-log-not-a-prefix', 'timeseries-log-not-a-prefix:disk', disk=disk[0:200], want=want[0:200]))
+            if outcome == 'ok' and not viol and case.get('reads'):
+                for rd in case['reads']:
+                    model.TimeSeriesSupressTimeZero = bool(rd['suppress'])
+                    try:
+                        if rd.get('via_attr'):
+                            model.TimeSeriesCutoff = rd['cutoff']
+                            model.GetTimeSeries(rd['series'])
+                        else:
+                            model.TimeSeriesCutoff = None
+                            model.GetTimeSeries(rd['series'], cutoff=rd['cutoff'])
+                    except KeyError:
+                        pass
+                again = model.EquationSolver.GenerateCSVtext()
+                stats['tables'] += 1
+                stats['probes']['rendered_again_after_reads'] = 1
+                if again != want:
+                    viol.append(core.violation(ID, 'table-changed-by-reading', 'table-changed-by-reading',
+                                               first=want[0:200], again=again[0:200], reads=case['reads']))
             if outcome == 'ok' and not fs.fired:
                 if len(Logger.log_file_handles) != 0:
                     viol.append(core.violation(ID, 'log-handles-left-open', 'log-handles-left-open'))
